@@ -11,7 +11,9 @@ namespace GrpcModel.Driver.S_compress
 open GrpcModel.Driver GrpcModel.Compression
 
 def opt (s : String) : Option String := if s = "-" then none else some s
-def plusList (s : String) : List String := if s = "-" then [] else s.splitOn "+"
+/-- `~` stands for a space (op fields are space separated) -/
+def tilde (s : String) : String := s.replace "~" " "
+def plusList (s : String) : List String := if s = "-" then [] else (tilde s).splitOn "+"
 
 def parseMsg (s : String) : Option Bytes := if s = "e" then some [] else unhex s
 
@@ -98,7 +100,7 @@ def parseOp : List String → Option Op
     let rs ← parseMsgs resps
     pure { kind := "rawc", reg := plusList reg, client := mkClient "-" "-" "-" "nil",
            server := ⟨opt scp, opt sdc⟩, setsend := opt setsend, reqs := [], resps := rs,
-           hdr := ⟨opt enc, opt acc⟩, frames := fs, renc := none }
+           hdr := ⟨opt enc, (opt acc).map tilde⟩, frames := fs, renc := none }
   | ["raws", reg, use, cleg, cdc, accept, reqs, renc, rframes] => do
     let rq ← parseMsgs reqs
     let fs ← parseFrames rframes
